@@ -2,6 +2,7 @@
 framing per path, pairing of the callbacks. DESIGN.md section 4, C20."""
 import re
 from .common import *
+from cpv.build import AnalysisBroken
 from cpv.ceval import Evaluator, Unknown
 
 CLS = "TeamCityTestOutput"
@@ -58,79 +59,82 @@ def check(ctx, run):
             else:
                 run.ob("R1", "%s argument %s" % (k[0], short(k[1], 60)), f.site, True, witness=render(f, c))
 
-    # ---------------- R2 ---------------------------------------------------
-    pe = prog.fn(CLS + "::printEscaped")
-    run.analysed(pe)
-    pname = pe.params[0]["name"]
-    # loop head: block whose condition is *s
-    head = None
-    for b in pe.blocks.values():
-        if b.get("cond") is not None and len(b["succ"]) == 2 and b["id"] in loop_blocks(pe):
-            key, pol = atom(pe, pe.nodes[b["cond"]])
-            if key == "*" + pname:
-                head = b
-    if head is None:
-        raise AnalysisBroken("printEscaped: loop on *%s not found" % pname)
-    body_entry = head["succ"][0]
-    # local buffers and their extents
-    extents = {}
-    for n in pe.walk():
-        if n["k"] == "DeclStmt":
-            for d in n.get("decls", []):
-                t = prog.types.get(d.get("ct", ""), {})
-                if t.get("k") == "array":
-                    extents[d["name"]] = t["extent"]
-    special = {ord("'"): "|'", ord("|"): "||", ord("["): "|[", ord("]"): "|]", ord("\n"): "|n", ord("\r"): "|r"}
-    for cv in list(range(-128, 0)) + list(range(1, 128)):
-        ev = Evaluator(prog, pe, env={"*" + pname: cv, pname: 1000})
-        snaps = []
+    def r2():
+        # ---------------- R2 ---------------------------------------------------
+        pe = prog.fn(CLS + "::printEscaped")
+        run.analysed(pe)
+        pname = pe.params[0]["name"]
+        # loop head: block whose condition is *s
+        head = None
+        for b in pe.blocks.values():
+            if b.get("cond") is not None and len(b["succ"]) == 2 and b["id"] in loop_blocks(pe):
+                key, pol = atom(pe, pe.nodes[b["cond"]])
+                if key == "*" + pname:
+                    head = b
+        if head is None:
+            raise AnalysisBroken("printEscaped: loop on *%s not found" % pname)
+        body_entry = head["succ"][0]
+        # local buffers and their extents
+        extents = {}
+        for n in pe.walk():
+            if n["k"] == "DeclStmt":
+                for d in n.get("decls", []):
+                    t = prog.types.get(d.get("ct", ""), {})
+                    if t.get("k") == "array":
+                        extents[d["name"]] = t["extent"]
+        special = {ord("'"): "|'", ord("|"): "||", ord("["): "|[", ord("]"): "|]", ord("\n"): "|n", ord("\r"): "|r"}
+        for cv in list(range(-128, 0)) + list(range(1, 128)):
+            ev = Evaluator(prog, pe, env={"*" + pname: cv, pname: 1000})
+            snaps = []
 
-        def pb(*a, ev=ev, snaps=snaps):
-            snaps.append(dict(ev.env))
-            return 0
-        for pc in PRINT_CLASSES:
-            ev.calls[pc + "::printBuffer"] = pb
-        ok, why, wit = True, "", None
-        try:
-            end, visited = ev.run_blocks(body_entry, stop_blocks={head["id"]})
-        except Unknown as u:
-            ok, why = False, "cannot fold loop body: %s" % u
-            end = None
-        if ok:
-            # what was printed
-            out = []
-            for snap, (nm, args, node) in zip(snaps, [t for t in ev.trace if t[0] and t[0].endswith("printBuffer")]):
-                buf = render(pe, pe.args(node)[0])
-                i = 0
-                s = ""
-                while True:
-                    v = snap.get("%s[%d]" % (buf, i))
-                    if v is None:
-                        ok, why = False, "buffer byte %d printed uninitialised (no terminator written)" % i
-                        break
-                    if v == 0:
-                        break
-                    s += chr(v & 0xff)
-                    i += 1
-                    if i > 8:
-                        break
-                out.append(s)
-            for key, v in ev.stores:
-                m = re.match(r"(\w+)\[(-?\d+)\]$", key)
-                if m and m.group(1) in extents and not (0 <= int(m.group(2)) < extents[m.group(1)]):
-                    ok, why = False, "write to %s outside its extent %d" % (key, extents[m.group(1)])
-            got = "".join(out)
-            exp = special.get(cv, chr(cv & 0xff))
-            wit = {"char": cv, "emitted": got, "expected": exp}
-            if ok and got != exp:
-                ok, why = False, "char %d is emitted as %r, TeamCity rules require %r" % (cv, got, exp)
-            if ok and end != head["id"]:
-                ok, why = False, "loop body does not return to the loop head"
-            # the pointer advances exactly once
-            adv = [k for k, v in ev.stores if k == pname]
-            if ok and len(adv) != 1:
-                ok, why = False, "input pointer advanced %d times in one iteration" % len(adv)
-        run.ob("R2", "char value %d" % cv, pe.site, ok, witness=wit, what=why)
+            def pb(*a, ev=ev, snaps=snaps):
+                snaps.append(dict(ev.env))
+                return 0
+            for pc in PRINT_CLASSES:
+                ev.calls[pc + "::printBuffer"] = pb
+            ok, why, wit = True, "", None
+            try:
+                end, visited = ev.run_blocks(body_entry, stop_blocks={head["id"]})
+            except Unknown as u:
+                # the escaper is not in the per-character form this rule can fold: undecided, never an alarm
+                raise AnalysisBroken("printEscaped: cannot fold the loop body per character (%s); the escaper was restructured beyond the idiom R2 decides" % u)
+            if ok:
+                # what was printed
+                out = []
+                for snap, (nm, args, node) in zip(snaps, [t for t in ev.trace if t[0] and t[0].endswith("printBuffer")]):
+                    buf = render(pe, pe.args(node)[0])
+                    i = 0
+                    s = ""
+                    while True:
+                        v = snap.get("%s[%d]" % (buf, i))
+                        if v is None:
+                            ok, why = False, "buffer byte %d printed uninitialised (no terminator written)" % i
+                            break
+                        if v == 0:
+                            break
+                        s += chr(v & 0xff)
+                        i += 1
+                        if i > 8:
+                            break
+                    out.append(s)
+                for key, v in ev.stores:
+                    m = re.match(r"(\w+)\[(-?\d+)\]$", key)
+                    if m and m.group(1) in extents and not (0 <= int(m.group(2)) < extents[m.group(1)]):
+                        ok, why = False, "write to %s outside its extent %d" % (key, extents[m.group(1)])
+                got = "".join(out)
+                exp = special.get(cv, chr(cv & 0xff))
+                wit = {"char": cv, "emitted": got, "expected": exp}
+                if ok and got != exp:
+                    ok, why = False, "char %d is emitted as %r, TeamCity rules require %r" % (cv, got, exp)
+                if ok and end != head["id"]:
+                    ok, why = False, "loop body does not return to the loop head"
+                # the pointer advances exactly once
+                adv = [k for k, v in ev.stores if k == pname]
+                if ok and len(adv) != 1:
+                    ok, why = False, "input pointer advanced %d times in one iteration" % len(adv)
+            run.ob("R2", "char value %d" % cv, pe.site, ok, witness=wit, what=why)
+
+    guarded(run, r2)
 
     # ---------------- R3 ---------------------------------------------------
     for f in writers:
@@ -173,6 +177,18 @@ def check(ctx, run):
         esc = [string_print_kind(prog, g, c) for c in g.calls()]
         esc = [k[1] for k in esc if k and k[0] == "esc"]
         run.ob("R3", "suite message names the stored group", g.site, esc == ["currGroup_.asCharString()"], witness=esc)
+
+    # the failure message names the open test: printFailure prints getTestNameOnly(), which every TestFailure
+    # constructor must fill from the test's plain name (this is what currtest_->getName() printed at start)
+    pfn = prog.fn(CLS + "::printFailure")
+    esc = [string_print_kind(prog, pfn, c) for c in pfn.calls()]
+    esc = [k[1] for k in esc if k and k[0] == "esc"]
+    run.ob("R3", "testFailed names the test by getTestNameOnly()", pfn.site, bool(esc) and esc[0] == "failure.getTestNameOnly().asCharString()", witness=esc)
+    from .shared import testfailure_ctor_table
+    testfailure_ctor_table(prog, run, "R3")
+    g = prog.fn("TestFailure::getTestNameOnly")
+    rets = [render(g, g.node(n.get("value"))) for n in g.walk() if n["k"] == "ReturnStmt"]
+    run.ob("R3", "getTestNameOnly returns testNameOnly_", g.site, rets == ["testNameOnly_"], witness=rets)
 
     # ---------------- R4 ---------------------------------------------------
     for rq, oq in (("currentTestStarted", "printCurrentTestStarted"), ("currentTestEnded", "printCurrentTestEnded"),
